@@ -11,6 +11,7 @@
     `observedRows s`     the rows of `s` whose mask bit is set, in row order
 -/
 import Batchie.Lemmas.Train
+import Batchie.Lemmas.ScorePipeline
 
 namespace Batchie.Props.C04
 open Batchie.Proto Batchie.Screen Batchie.Scores Batchie.Train Batchie.Lemmas.Scores Batchie.Lemmas.Train
@@ -260,6 +261,31 @@ theorem C04_add_view_noninterference {τ : Type} (m : ModelKind) (transform : Na
     addObservations m transform nanT s.arity (viewRows s { parent := 0, sel := sel })
       = addObservations m transform nanT s'.arity (viewRows s' { parent := 0, sel := sel }) :=
   addObservations_view_agree m transform nanT s s' h sel
+
+/-- The CONCRETE composed pipeline that the driver executes (`ScorePipeline.run`: viability predictions of every sample on the whole
+    screen → MSE distance chunks → concat → dense matrix → per score chunk the plates `score_chunk` selects, `predict_mean_all` /
+    `predict_variance_all` per plate, the DBAL kernel on the recorded draws → holders → save / load / concat → `select_next_plate`),
+    for every number type: two screens that differ at most in their observation column — in particular two screens that differ only
+    behind the mask — give the same distance matrix, the same scores, the same holders and the same selected plate (and the same
+    error when there is one).  No stage is abstract here: this is the function `pipe.dbal` runs against the real code. -/
+theorem C04_concrete_pipeline_noninterference {α : Type} [Add α] [Sub α] [Mul α] [Div α] [Neg α] [Zero α] [One α] [OfNat α 0] [OfNat α 1]
+    [OfScientific α] [LT α] [DecidableLT α] [Max α] [Predict.ExpLog α] [Dbal.ExpLog α]
+    (num : ScorePipeline.Num α) (s s' : Screen) (h : shape s = shape s') (thetas : List (Predict.Theta α)) (kDist kScore : Nat)
+    (batch : List Int) (maxChunk : Nat) (draws : Nat → Nat → List Nat) (policy : Option Policy) :
+    ScorePipeline.run num s thetas kDist kScore batch maxChunk draws policy
+      = ScorePipeline.run num s' thetas kDist kScore batch maxChunk draws policy := by
+  have e : ∀ x : Screen, x = (shape x).withObs x.obs := fun x => by cases x; rfl
+  rw [e s, e s', h]
+  exact Batchie.Lemmas.ScorePipeline.run_withObs num (shape s') s.obs s'.obs thetas kDist kScore batch maxChunk draws policy
+
+/-- the same for screens that differ only behind the mask -/
+theorem C04_concrete_pipeline_noninterference_masked {α : Type} [Add α] [Sub α] [Mul α] [Div α] [Neg α] [Zero α] [One α] [OfNat α 0] [OfNat α 1]
+    [OfScientific α] [LT α] [DecidableLT α] [Max α] [Predict.ExpLog α] [Dbal.ExpLog α]
+    (num : ScorePipeline.Num α) (s s' : Screen) (h : AgreeOffMask s s') (thetas : List (Predict.Theta α)) (kDist kScore : Nat)
+    (batch : List Int) (maxChunk : Nat) (draws : Nat → Nat → List Nat) (policy : Option Policy) :
+    ScorePipeline.run num s thetas kDist kScore batch maxChunk draws policy
+      = ScorePipeline.run num s' thetas kDist kScore batch maxChunk draws policy :=
+  C04_concrete_pipeline_noninterference num s s' h.shape thetas kDist kScore batch maxChunk draws policy
 
 /-! ### non-vacuity and concrete bit patterns -/
 
